@@ -30,6 +30,7 @@ def fl (s : String) : Float := fOfBits (nat! s)
 
 def axes : List Axis := [.x, .y, .z]
 def axNum : Axis → Nat | .x => 0 | .y => 1 | .z => 2
+def bOf (s : String) : Boundary := if s == "i" then .inflow else if s == "o" then .outflow else .reflective
 def axOf (s : String) : Axis := if s == "0" then .x else if s == "1" then .y else .z
 
 def layoutOf (w : Array String) (k : Nat) : Layout × Cells :=
@@ -123,13 +124,16 @@ def step (_ : Unit) (ws : List String) : Unit × String :=
     let ft := faceFluxTag (hllcFlux g) dblMin g i L R (fl w[3]!) (fl w[4]!) (fl w[5]!)
     let r := doFluxCalculation (hllcFlux g) dblMin g i L R (fl w[3]!) (fl w[4]!) (fl w[5]!)
     ((), s!"F {showQ r.1.dcons} {showQ r.2.dcons} #fl{ft.2}")
-  else if op == "gflux" && n == 36 then
-    let g := fl w[1]!
-    let i := axOf w[2]!
-    let L := readCell w 6
-    let ft := ghostFaceFluxTag (hllcFlux g) dblMin g i L (fl w[3]!) (fl w[4]!) (fl w[5]!)
-    let r := doGhostFluxCalculation (hllcFlux g) dblMin g i L (fl w[3]!) (fl w[4]!) (fl w[5]!)
-    ((), s!"G {showQ r.dcons} #gf{ft.2}")
+  else if op == "gflux" && n == 37 then
+    -- gflux <r|i|o> gamma i dx A dt L(30)
+    let bk := bOf w[1]!
+    let g := fl w[2]!
+    let i := axOf w[3]!
+    let L := readCell w 7
+    let ft := ghostFaceFluxTagB bk (hllcFlux g) dblMin g i L (fl w[4]!) (fl w[5]!) (fl w[6]!)
+    let r := doGhostFluxCalculationB bk (hllcFlux g) dblMin g i L (fl w[4]!) (fl w[5]!) (fl w[6]!)
+    let inw := decide (HydroUpdate.orientation (fl w[4]!) * V3'.get L.prim.v i < 0.0)
+    ((), s!"G {showQ r.dcons} #gf{w[1]!}{if bk == .outflow then (if inw then "in" else "out") else ""}{ft.2}")
   else if op == "grad" && n == 83 then
     let i := axOf w[1]!
     let limL := readLim w 33
@@ -138,12 +142,14 @@ def step (_ : Unit) (ws : List String) : Unit × String :=
     let R := { readCell w 43 with lo := limR.1, hi := limR.2 }
     let r := doGradientCalculation i L R (fl w[2]!)
     ((), s!"D {showQ (r.1.grad.along i)} {showLim r.1.lo r.1.hi} {showQ (r.2.grad.along i)} {showLim r.2.lo r.2.hi} #grad")
-  else if op == "ggrad" && n == 43 then
-    let i := axOf w[1]!
-    let limL := readLim w 33
-    let L := { readCell w 3 with lo := limL.1, hi := limL.2 }
-    let r := doGhostGradientCalculation i L (fl w[2]!)
-    ((), s!"E {showQ (r.grad.along i)} {showLim r.lo r.hi} #ggrad")
+  else if op == "ggrad" && n == 44 then
+    -- ggrad <r|i|o> i dxinv L(30) lim(10)
+    let bk := bOf w[1]!
+    let i := axOf w[2]!
+    let limL := readLim w 34
+    let L := { readCell w 4 with lo := limL.1, hi := limL.2 }
+    let r := doGhostGradientCalculationB bk i L (fl w[3]!)
+    ((), s!"E {showQ (r.grad.along i)} {showLim r.lo r.hi} #ggrad{w[1]!}")
   else if op == "slim" && n == 34 then
     let dx : V3 Float := readV3 w 1
     let lim := readLim w 24
@@ -166,6 +172,10 @@ def step (_ : Unit) (ws : List String) : Unit × String :=
     let G : Grad Float := ⟨readV3 w 8, readV3 w 11, readV3 w 14, readV3 w 17, readV3 w 20⟩
     let r := predictPrimitiveTag (fl w[1]!) ovfThr (readQ w 3) G (readV3 w 23) (fl w[2]!)
     ((), s!"Q {showQ r.1} #pr{r.2}")
+  else if op == "tstep" && n == 8 then
+    -- tstep gamma V prim(5)
+    let dt := getTimestep (fl w[1]!) dblMin ovfThr (Float.ofBits 0x3FD45F306DC9C883) (1.0 / 3.0) (readQ w 3) (fl w[2]!)
+    ((), s!"T {showF dt} #ts")
   else if op == "ucons" && n == 16 then
     let h : HV Float :=
       { prim := zeroQ, grad := Grad.zero, lo := zeroQ, hi := zeroQ, cons := readQ w 2,
